@@ -998,6 +998,13 @@ def platform_part(run, prop, tier):
                 for fake in ((0x7f1234567000, 0) if variant.endswith("x64") else (0x7f1234567000,)):
                     # fake = 0: a replacement close to the trampoline (x86-64 short form), taken inside the arena
                     scen.append({"id": len(scen) + 1, "variant": variant, "off": off, "installs": installs, "fake": fake, "near_fake": fake == 0})
+            # a kernel that answers like a real one where the shim above is stricter than any kernel: a Unix mmap whose hint is
+            # not free answers with another address (here: another arena page), a Windows VirtualAlloc rounds down to the 64 KiB
+            # allocation granularity -- so that the layer below is reached whatever pages an allocator chooses to ask for
+            if variant != "linux-arm":
+                for installs in ((["jump", "bool0"],) if tier == "quick" else (["jump"], ["bool1"], ["jump", "bool0"], ["bool1", "jump", "jump"])):
+                    scen.append({"id": len(scen) + 1, "variant": variant, "off": off, "installs": installs, "fake": 0x7f1234567000, "near_fake": False,
+                                 "kernel": "near"})
     groups, order, _ = vlib.run_harness("platsim", scen, "platsim_" + prop, timeout=3000)
     cfgp = tlc.make_cfg("Trace_Flush", {"Props": '{"%s", "ALL"}' % prop}, "Trace_Flush_" + prop)
     tv = tlc.validate_traces("Trace_Flush", cfgp, [(sc["id"], groups.get(sc["id"], [])) for sc in scen], WORK, "trace_flush_" + prop, timeout=3000)
@@ -1008,7 +1015,8 @@ def platform_part(run, prop, tier):
     for sc in scen:
         evs = groups.get(sc["id"], [])
         hows |= set(e["how"] for e in evs if e["ev"] == "PFlush")
-        run.note_case("platform %s off=%s installs=%s fake=%s" % (sc["variant"], sc["off"], "+".join(sc["installs"]), "near" if sc["near_fake"] else "far"))
+        run.note_case("platform %s off=%s installs=%s fake=%s kernel=%s" % (sc["variant"], sc["off"], "+".join(sc["installs"]), "near" if sc["near_fake"] else "far",
+                                                                             sc.get("kernel", "exact")))
         if sc["id"] not in tv["accepted"]:
             reached, total = tv["progress"].get(sc["id"], (0, -1))
             fe = evs[reached] if reached < len(evs) else None
@@ -2345,7 +2353,9 @@ def do_selftest():
              ("allocator: a rejected block is not given back", without(base, lambda e: e["ev"] == "Release"), False),
              ("allocator: the returned block is not the granted one", changed(base, lambda e: e["ev"] == "Result", addr=[0, 0, 1, 0, 0, 0, 0, 0]), False),
              ("allocator: a hint below the window", changed(base, lambda e: e["ev"] == "Try", hint=[0, 0x78, 0x34, 0x02, 0xf6, 0x7f, 0, 0]), False),
-             ("allocator: gives up before the window is exhausted", changed(exh, lambda e: e["ev"] == "Result", tries=exh[-1]["tries"] - 1), False),
+             # giving up early is within the property (a panic with nothing held and the function untouched): accepted
+             ("allocator: gives up before the window is exhausted", changed(exh, lambda e: e["ev"] == "Result", tries=exh[-1]["tries"] - 1), True),
+             ("allocator: panics while a block is still held", changed(exh, lambda e: e["ev"] == "Result", held=1), False),
              ("allocator: an out-of-reach block accepted", [e for e in base if e["ev"] in ("AllocBegin",)] + [next(e for e in base if e["ev"] == "Try")]
               + [dict(next(e for e in base if e["ev"] == "Result"), addr=next(e for e in base if e["ev"] == "Try")["ret"])], False)]
     for name, evs, want_accept in cases:
